@@ -1,4 +1,5 @@
 import NriModel.Lemmas.ResultUpdates
+import NriModel.Lemmas.ResultWalkVals
 /-!
 # C05 — container updates are collected once per target with exactly the fields set
 
@@ -13,11 +14,24 @@ the request (`C05_self_update`); an ignore-failure update that conflicts contrib
 and raises no error (`C05_ignored_drop`); a failing non-ignored update fails the request
 (`C05_conflict_fails`). "Exactly the fields plugins set, each from its single owner" is proved
 per applied update (`C05_applied_fields`: the entry becomes its base overlaid with the
-update, field by field) — the chain-level value statement is evaluated on every generated
-chain by the correspondence run (`exactFields`) and is not proved: partial.
+update, field by field) and at chain level:
+
+The chain-level value statement — the one the correspondence run evaluates on every generated
+chain (`Driver/Merge.lean: exactFields`) — is proved for all chains by refinement of the
+state-free specification walk `Nri.UpdateWalk.walk` (`C05_walk_refines`, `C05_exact_fields`):
+every returned entry carries, as a structurally equal `Resources` value (no canonical form
+needed), what the walk yields for its target. Corollaries: every entry is its base overlaid in
+order with exactly the updates the walk applies to its target (`C05_entry_overlay`), an
+ignore-failure update that names a taken item is not among them
+(`C05_ignored_drop_chain`), and each scalar / unified key of an entry is the value of the one
+applied update that set it, or the base value (`C05_single_source`).
+Hypothesis of these theorems (a guard of the property's domain, implied by the driver's
+`dupWithin` guard): no update marked ignore-failure names one item twice (`NoDupItems`; an
+unmarked update that does fails the request). It cannot be dropped: `C05_walk_needs_nodup`
+is a chain with a repeated hugepage size on which walk and model differ.
 -/
 namespace Nri.Props.C05
-open Nri Nri.NApi Nri.Result Nri.Ledger
+open Nri Nri.NApi Nri.Result Nri.Ledger Nri.UpdateWalk
 
 theorem updWF_init (st : State) (h1 : st.updates = []) (h2 : st.own = none) : UpdWF st :=
   ⟨by simp [ids, h1], by simp [ids, h1], by simp [h2]⟩
@@ -144,10 +158,244 @@ theorem C05_applied_fields (base r : Resources) (m : Memory) (c : Cpu)
     out.rdtClass = (r.rdtClass.orElse fun _ => base.rdtClass) := by
   simp [overlayRes, overlayMem, overlayCpu, hm, hc]
 
-/-! ### the hypotheses are satisfiable -/
+
+/-! ### chain level: the model refines the specification walk -/
 
 private def updOf (id : Str) (r : Resources) (ign : Bool := false) : Update :=
   { containerId := id, resources := some r, ignoreFailure := ign }
+
+/-- the chain of the examples below: three plugins answer an update request of `c0`
+    (requested: pids 5); the second plugin's update of `ctrA` is marked ignore-failure and names
+    cpu shares (free) and then pids (owned by the first plugin): it is dropped, its claim of cpu
+    shares stays -/
+private def chain3 : List (Plugin × Response) :=
+  [(str "10-a", { updates := [updOf (str "ctrA") { pids := some 1 }, updOf (str "c0") { memory := some { limit := some 3 } }] }),
+   (str "20-b", { updates := [updOf (str "ctrA") { cpu := some { shares := some 9 }, pids := some 2 } true] }),
+   (str "30-c", { updates := [updOf (str "ctrA") { cpu := some { quota := some 4 } }, updOf (str "c0") { pids := some 7 }] })]
+
+private def req3 : Resources := { pids := some 5 }
+private def base3 : Cid → Resources := specBase (.update (str "c0")) req3
+
+/-- **The model refines the walk.** For a request started in a fresh collector state and a chain
+    in which no ignore-failure update names one item twice, after a successful request
+    (i) every entry of the reply's update list (third-party entries and the own entry) carries
+    exactly the resources the specification walk yields for its target, and
+    (ii) a `(target, item)` pair is taken in the walk iff it has an owner in the ledger (for
+    every target other than the container being created). -/
+theorem C05_walk_refines (st0 st' : State) (rs : List (Plugin × Response))
+    (h1 : st0.updates = []) (h2 : st0.own = none) (h3 : st0.owners = [])
+    (hnd : NoDupItems (flatUpdates rs))
+    (h : run Quirks.fixed st0 (answeredAll rs) = .ok st') :
+    (∀ e, some e ∈ replyUpdates st' →
+       e.resources = some ((walk (baseOf st0) rs).get (baseOf st0) e.containerId)) ∧
+    (∀ c it, st0.kind ≠ .create c →
+       ((c, it) ∈ (walk (baseOf st0) rs).taken ↔ (st'.owners.owner c it).isSome = true)) := by
+  obtain ⟨rel, ok⟩ := run_rel (baseOf st0) rs st0 st' {} (rel_fresh st0 h1 h3) (entOK_fresh st0 h1 h2) hnd h
+  rw [← walk_eq] at rel
+  refine ⟨fun e he => ?_, fun c it hc => ?_⟩
+  · rw [replyUpdates_vals st' ok e he, rel.vals]
+  · exact rel.taken c it (by rw [run_kind _ st0 st' _ h]; exact hc)
+
+-- chain3 satisfies the hypotheses; the walk holds pids 1 / quota 4 / no shares for ctrA, and the
+-- dropped update's claim of cpu shares is taken in the walk and owned (by 20-b) in the ledger
+example :
+    (∀ u ∈ flatUpdates chain3, u.ignoreFailure = true → (setsUpd u).Nodup) ∧
+    (let r := (walk base3 chain3).get base3 (str "ctrA")
+     (r.pids, (r.cpu.getD {}).shares, (r.cpu.getD {}).quota)) = (some 1, none, some 4) ∧
+    (walk base3 chain3).taken.contains (str "ctrA", Item.cpuShares) = true ∧
+    (match run Quirks.fixed (initUpdate (str "c0") req3) (answeredAll chain3) with
+     | .ok st => st.owners.owner (str "ctrA") Item.cpuShares
+     | .error _ => none) = some (str "20-b") := by decide
+
+
+/-- **Exact fields (C05, value clause), every request kind.** For an update request of `id`
+    with any requested resources `req`, a stop request, or the creation of `c0`: after a
+    successful request every returned entry `e` has
+    `e.resources = some ((walk base rs).get base e.containerId)` with the driver's base
+    (`specBase`: `normRes req` for the container being updated, `normRes {}` otherwise).
+    Equality is structural equality of `Resources`. -/
+theorem C05_exact_fields (st0 st' : State) (req : Resources) (rs : List (Plugin × Response))
+    (hinit : (∃ id, st0 = initUpdate id req) ∨ st0 = initStop ∨ ∃ c0, st0 = initCreate c0)
+    (hnd : NoDupItems (flatUpdates rs))
+    (h : run Quirks.fixed st0 (answeredAll rs) = .ok st') :
+    ∀ e, some e ∈ replyUpdates st' →
+      e.resources = some ((walk (specBase st0.kind req) rs).get (specBase st0.kind req) e.containerId) := by
+  have hb : baseOf st0 = specBase st0.kind req ∧ st0.updates = [] ∧ st0.own = none ∧ st0.owners = [] := by
+    rcases hinit with ⟨id, rfl⟩ | rfl | ⟨c0, rfl⟩
+    · exact ⟨baseOf_initUpdate id req, rfl, rfl, rfl⟩
+    · exact ⟨baseOf_initStop req, rfl, rfl, rfl⟩
+    · exact ⟨baseOf_initCreate c0 req, rfl, rfl, rfl⟩
+  obtain ⟨hb, h1, h2, h3⟩ := hb
+  have := (C05_walk_refines st0 st' rs h1 h2 h3 hnd h).1
+  rw [hb] at this
+  exact this
+
+-- on chain3 the request succeeds and both returned entries (ctrA, then c0 last) equal the walk
+example :
+    (match run Quirks.fixed (initUpdate (str "c0") req3) (answeredAll chain3) with
+     | .ok st => (replyUpdates st).map fun (e : Option Update) => e.map fun (e : Update) =>
+         (e.containerId, decide (e.resources = some ((walk base3 chain3).get base3 e.containerId)))
+     | .error _ => []) = [some (str "ctrA", true), some (str "c0", true)] := by decide
+
+
+/-- **Exact fields, chains with unsubscribed or dropped plugins.** The same for a chain in which
+    some plugins do not answer (`none`): the walk runs over the plugins that did. -/
+theorem C05_exact_fields_dropped (st0 st' : State) (req : Resources) (rs : List (Plugin × Option Response))
+    (hinit : (∃ id, st0 = initUpdate id req) ∨ st0 = initStop ∨ ∃ c0, st0 = initCreate c0)
+    (hnd : NoDupItems (flatUpdates (answered rs)))
+    (h : run Quirks.fixed st0 rs = .ok st') :
+    ∀ e, some e ∈ replyUpdates st' →
+      e.resources = some ((walk (specBase st0.kind req) (answered rs)).get (specBase st0.kind req) e.containerId) :=
+  C05_exact_fields st0 st' req (answered rs) hinit hnd (by rw [← run_answered]; exact h)
+
+-- chain3 with a plugin that is not subscribed between the second and the third
+example :
+    let rs : List (Plugin × Option Response) :=
+      (answeredAll (chain3.take 2)) ++ (str "25-x", none) :: answeredAll (chain3.drop 2)
+    (answered rs).map (fun x => (x.1, x.2.updates)) = chain3.map (fun x => (x.1, x.2.updates)) ∧
+    (match run Quirks.fixed (initUpdate (str "c0") req3) rs with
+     | .ok st => (replyUpdates st).map fun (e : Option Update) => e.map fun (e : Update) =>
+         (e.containerId, decide (e.resources = some ((walk base3 (answered rs)).get base3 e.containerId)))
+     | .error _ => []) = [some (str "ctrA", true), some (str "c0", true)] := by decide
+
+/-- **Entries are overlays of the applied updates.** Every returned entry is its base overlaid,
+    in chain order, with exactly the updates the walk applies to its target — nothing of any
+    other update reaches it. -/
+theorem C05_entry_overlay (st0 st' : State) (rs : List (Plugin × Response))
+    (h1 : st0.updates = []) (h2 : st0.own = none) (h3 : st0.owners = [])
+    (hnd : NoDupItems (flatUpdates rs))
+    (h : run Quirks.fixed st0 (answeredAll rs) = .ok st') :
+    ∀ e, some e ∈ replyUpdates st' →
+      e.resources = some
+        (((appliedFrom (baseOf st0) {} (flatUpdates rs)).filter fun u => u.containerId = e.containerId).foldl
+          overlayUpd (baseOf st0 e.containerId)) := by
+  intro e he
+  rw [(C05_walk_refines st0 st' rs h1 h2 h3 hnd h).1 e he, walk_eq, foldl_get]
+  rfl
+
+-- of the five updates of chain3 the walk applies four: all but the ignore-failure one
+example :
+    (flatUpdates chain3).map (·.ignoreFailure) = [false, false, true, false, false] ∧
+    (appliedFrom base3 {} (flatUpdates chain3)).map (·.ignoreFailure) = [false, false, false, false] ∧
+    ((appliedFrom base3 {} (flatUpdates chain3)).filter fun u => u.containerId = str "ctrA").length = 2 := by decide
+
+
+/-- **Ignored conflicting update, chain level.** If the update `u` at some position of the
+    chain's update lists names an item that is taken when the walk reaches it (by
+    `C05_walk_refines` (ii): an item that has an owner), then `u` is not among the updates
+    overlaid on any entry: every returned entry is its base overlaid with the applied updates
+    before `u` and the applied updates after `u` — no value of `u`, not even of the fields
+    before the taken one, reaches any entry. (In a successful request such a `u` is marked
+    ignore-failure: `C05_conflict_fails`.) -/
+theorem C05_ignored_drop_chain (st0 st' : State) (rs : List (Plugin × Response))
+    (h1 : st0.updates = []) (h2 : st0.own = none) (h3 : st0.owners = [])
+    (hnd : NoDupItems (flatUpdates rs))
+    (h : run Quirks.fixed st0 (answeredAll rs) = .ok st')
+    (pre post : List Update) (u : Update) (hflat : flatUpdates rs = pre ++ u :: post)
+    (it : Item) (hit : it ∈ setsUpd u)
+    (htaken : (u.containerId, it) ∈ (pre.foldl (simUpdate (baseOf st0)) {}).taken) :
+    ∀ e, some e ∈ replyUpdates st' →
+      e.resources = some
+        (((appliedFrom (baseOf st0) {} pre ++
+            appliedFrom (baseOf st0) (simUpdate (baseOf st0) (pre.foldl (simUpdate (baseOf st0)) {}) u) post).filter
+          fun v => v.containerId = e.containerId).foldl overlayUpd (baseOf st0 e.containerId)) := by
+  intro e he
+  rw [C05_entry_overlay st0 st' rs h1 h2 h3 hnd h e he, hflat, appliedFrom_append]
+  simp only [appliedFrom, not_applies_of_taken _ u it hit htaken, Bool.false_eq_true, ↓reduceIte, List.nil_append]
+
+-- chain3 splits at its third update (20-b's, ignore-failure); its item pids is taken there
+example :
+    flatUpdates chain3 =
+      [updOf (str "ctrA") { pids := some 1 }, updOf (str "c0") { memory := some { limit := some 3 } }] ++
+      updOf (str "ctrA") { cpu := some { shares := some 9 }, pids := some 2 } true ::
+      [updOf (str "ctrA") { cpu := some { quota := some 4 } }, updOf (str "c0") { pids := some 7 }] ∧
+    Item.pids ∈ setsUpd (updOf (str "ctrA") { cpu := some { shares := some 9 }, pids := some 2 } true) ∧
+    (str "ctrA", Item.pids) ∈
+      ([updOf (str "ctrA") { pids := some 1 }, updOf (str "c0") { memory := some { limit := some 3 } }].foldl
+        (simUpdate base3) {}).taken ∧
+    -- and no value of it is returned: cpu shares of ctrA stay unset
+    (match run Quirks.fixed (initUpdate (str "c0") req3) (answeredAll chain3) with
+     | .ok st => st.updates.map fun e => ((e.resources.getD {}).cpu.getD {}).shares
+     | .error _ => []) = [none] := by decide
+
+
+/-- **Single source per field.** For every returned entry and every item `it`, among the
+    updates overlaid on the entry (`C05_entry_overlay`) either exactly one names `it`, and the
+    entry's field is that update's value, or none does and the field is the base value — values
+    of different updates (hence of different plugins) are never merged into one field.
+    `fieldVal` reads the 18 scalars and the unified keys (hugepage limits, which are appended,
+    read as `other`). -/
+theorem C05_single_source (st0 st' : State) (rs : List (Plugin × Response))
+    (h1 : st0.updates = []) (h2 : st0.own = none) (h3 : st0.owners = [])
+    (hnd : NoDupItems (flatUpdates rs))
+    (h : run Quirks.fixed st0 (answeredAll rs) = .ok st')
+    (e : Update) (he : some e ∈ replyUpdates st') (res : Resources) (hres : e.resources = some res)
+    (it : Item) :
+    let app := (appliedFrom (baseOf st0) {} (flatUpdates rs)).filter fun u => u.containerId = e.containerId
+    (∃ pre u post r, app = pre ++ u :: post ∧ u.resources = some r ∧ it ∈ setsUpd u ∧
+        (∀ v ∈ pre ++ post, it ∉ setsUpd v) ∧ fieldVal it res = fieldVal it r) ∨
+    ((∀ v ∈ app, it ∉ setsUpd v) ∧ fieldVal it res = fieldVal it (baseOf st0 e.containerId)) := by
+  intro app
+  have hval := C05_entry_overlay st0 st' rs h1 h2 h3 hnd h e he
+  rw [hres] at hval
+  have hres' : res = app.foldl overlayUpd (baseOf st0 e.containerId) := Option.some.inj hval
+  have hpw : app.Pairwise fun v w => ∀ it ∈ setsUpd v, it ∉ setsUpd w := by
+    have := (appliedFrom_pairwise (baseOf st0) (flatUpdates rs) {}).filter (fun u => decide (u.containerId = e.containerId))
+    refine List.Pairwise.imp_of_mem ?_ this
+    intro v w hv hw hvw
+    have hv' := (List.mem_filter.1 hv).2
+    have hw' := (List.mem_filter.1 hw).2
+    simp only [decide_eq_true_eq] at hv' hw'
+    exact hvw (hv'.trans hw'.symm)
+  by_cases hex : ∃ u ∈ app, it ∈ setsUpd u
+  · left
+    obtain ⟨u, hu, hitu⟩ := hex
+    obtain ⟨pre, post, happ⟩ := List.append_of_mem hu
+    obtain ⟨_, hndu, r, hr⟩ := appliedFrom_mem (baseOf st0) (flatUpdates rs) {} u (List.mem_filter.1 hu).1
+    rw [happ] at hpw
+    obtain ⟨_, hpw2, hpw3⟩ := List.pairwise_append.1 hpw
+    have hpost : ∀ v ∈ post, it ∉ setsUpd v := fun v hv => (List.pairwise_cons.1 hpw2).1 v hv it hitu
+    have hpre : ∀ v ∈ pre, it ∉ setsUpd v := fun v hv hitv => hpw3 v hv u List.mem_cons_self it hitv hitu
+    refine ⟨pre, u, post, r, happ, hr, hitu, ?_, ?_⟩
+    · intro v hv
+      rcases List.mem_append.1 hv with hv | hv
+      · exact hpre v hv
+      · exact hpost v hv
+    · rw [hres', happ]
+      exact fold_field_set it pre post u r _ hr hndu hitu hpost
+  · right
+    have hnone : ∀ v ∈ app, it ∉ setsUpd v := fun v hv hitv => hex ⟨v, hv, hitv⟩
+    exact ⟨hnone, by rw [hres']; exact fold_field_keep it app _ hnone⟩
+
+-- both alternatives occur on chain3 for the entry of ctrA: cpu quota comes from 30-c's update
+-- alone, cpu shares (named only by the dropped update) keep the base value
+example :
+    let app := (appliedFrom base3 {} (flatUpdates chain3)).filter fun u => u.containerId = str "ctrA"
+    app = [updOf (str "ctrA") { pids := some 1 }] ++ updOf (str "ctrA") { cpu := some { quota := some 4 } } :: [] ∧
+    Item.cpuQuota ∈ setsUpd (updOf (str "ctrA") { cpu := some { quota := some 4 } }) ∧
+    (∀ v ∈ app, Item.cpuShares ∉ setsUpd v) ∧
+    fieldVal Item.cpuShares ((walk base3 chain3).get base3 (str "ctrA")) = fieldVal Item.cpuShares (base3 (str "ctrA")) ∧
+    fieldVal Item.cpuQuota ((walk base3 chain3).get base3 (str "ctrA")) = FVal.int (some 4) := by decide
+
+/-- **The hypothesis `NoDupItems` is needed.** An ignore-failure update naming hugepage size
+    `2M` twice and then a block I/O class: the ledger stops at the repeated size, so the class
+    is not claimed and a later plugin's class is applied (`some "y"`); the walk's dropped branch
+    (`free.eraseDups`) takes the class as well and yields none. Such chains are outside the
+    property's stated domain (driver guard `dupWithin`: "one response names an item twice"). -/
+theorem C05_walk_needs_nodup :
+    let dup : List (Plugin × Response) :=
+      [(str "10-a", { updates := [updOf (str "ctrA")
+          { hugepages := [{ pageSize := str "2M", limit := 1 }, { pageSize := str "2M", limit := 2 }],
+            blockioClass := some (str "x") } true] }),
+       (str "20-b", { updates := [updOf (str "ctrA") { blockioClass := some (str "y") }] })]
+    ¬ (∀ u ∈ flatUpdates dup, u.ignoreFailure = true → (setsUpd u).Nodup) ∧
+    (match run Quirks.fixed initStop (answeredAll dup) with
+     | .ok st => st.updates.map fun e => (e.resources.getD {}).blockioClass
+     | .error _ => []) = [some (str "y")] ∧
+    ((walk (specBase .stop {}) dup).get (specBase .stop {}) (str "ctrA")).blockioClass = none := by decide
+
+
+/-! ### the hypotheses are satisfiable -/
 
 -- own entry last, third-party entries once each although ctrA is named twice
 example :
